@@ -357,7 +357,7 @@ STATIC = list(globals().get("STATIC", [])) + list(TIMED_STATIC)
 # ---- C01 units reused (added after seeded change C02-3 was missed): "the window in which the task has released the internal lock
 # ---- but has not yet finished switching off its worker" is closed by the worker's switch_status::store_state -> restore_state CAS,
 # ---- which must ignore state_ex (a waker may have changed it); those are the C01 units of the same name, run here as well
-_c01 = {"UNITS": []}
+_c01 = {"UNITS": [], "VX_NO_REUSE": True}
 if not globals().get("VX_NO_REUSE"):     # C01 runs the sts.* units of this file (below) and sets VX_NO_REUSE: no cycle
     exec(compile(open("/verif/specs/C01/spec.py").read(), "/verif/specs/C01/spec.py", "exec"), _c01)
 for _u in _c01["UNITS"]:
@@ -370,3 +370,16 @@ for _u in _c01["UNITS"]:
         _u.template = "../C01/" + _u.template
         UNITS.append(_u)
 META["trusted_base"] = list(META.get("trusted_base", [])) + ["units c01.* are the C01 units of the same name (specs/C01/word.c, loop.c) with their trusted base"]
+
+
+# ---- C19 unit reused (added after seeded change C02-7 was missed): a woken task is handed to schedule_thread, which (elastic pools)
+# ---- lets scheduler_base::select_active_pu pick the worker whose queue receives it: a sleeping worker only when no other is available
+_c19 = {"UNITS": [], "VX_NO_REUSE": True}
+if not globals().get("VX_NO_REUSE"):
+    exec(compile(open("/verif/specs/C19/spec.py").read(), "/verif/specs/C19/spec.py", "exec"), _c19)
+for _u in _c19["UNITS"]:
+    if _u.name == "state.select_active_pu":
+        _u.name = "c19." + _u.name
+        _u.template = "../C19/" + _u.template
+        UNITS.append(_u)
+META["trusted_base"] = list(META.get("trusted_base", [])) + ["unit c19.state.select_active_pu is the C19 unit of the same name (specs/C19/state.c) with its trusted base"]
